@@ -16,6 +16,7 @@ import PotasscoVerif.Drv.Options
 import PotasscoVerif.Drv.OptAssign
 import PotasscoVerif.Drv.OptFormat
 import PotasscoVerif.Drv.Text
+import PotasscoVerif.Drv.Convert
 open PotasscoVerif.Drv
 
 def dispatch (line : String) : String :=
@@ -40,6 +41,7 @@ def dispatch (line : String) : String :=
   | "of" :: args => runOF args
   | "tr" :: args => runTR args
   | "tw" :: args => runTW args
+  | "cv" :: args => runCV args
   | _ => "bad-component"
 
 partial def loop (h : IO.FS.Stream) (out : IO.FS.Stream) : IO Unit := do
